@@ -265,6 +265,8 @@ func (r *SparseInt8Matrix) Jacobian(f func(ConstVector) ConstVector, x_ MagicVec
      m = x.Dim()
     *r = *NullSparseInt8Matrix(n, m)
   }
+  // entries without a derivative must not keep a previous value
+  r.Reset()
   // copy derivatives
   for i := 0; i < n; i++ {
     for j := 0; j < m; j++ {
@@ -288,6 +290,8 @@ func (r *SparseInt8Matrix) Hessian(f func(ConstVector) ConstScalar, x_ MagicVect
   x.Variables(2)
   // evaluate function
   y := f(x)
+  // entries without a derivative must not keep a previous value
+  r.Reset()
   // copy second derivatives
   for i := 0; i < n; i++ {
     for j := 0; j < m; j++ {
